@@ -15,6 +15,7 @@ namespace Sess
 inductive Op
   | w (c : Nat)      -- Write of a chunk
   | vbad             -- Verify against a digest the content does not have
+  | vbadAlt          -- the same with a digest of the other algorithm (refused after the switch and the rescan)
   | vgood            -- Verify against the digest of the accepted bytes
   | vgoodAlt         -- the same under another digest algorithm (the object rescans its content and switches its digester)
   | close            -- Verify against the digest of the accepted bytes, then (if that passed) Close: what the handler does
@@ -66,18 +67,19 @@ def verify (dir : Bool) (s : S) (wantAlt : Bool) : S × Out :=
 
 /-- `Verify` against a digest (of the first algorithm) that the content does not have: always refused; an unpinned object
     whose digester is of the other algorithm switches back on the way -/
-def verifyBadCore (dir : Bool) (s : S) : Bool × Bool :=
-  if s.pin.isSome ∨ s.alt = false then (s.alt, s.broken)
-  else if dir ∧ s.fclosed then (false, true)
-  else (false, false)
+def verifyBadCore (dir : Bool) (s : S) (wantAlt : Bool) : Bool × Bool :=
+  if s.pin.isSome ∨ s.alt = wantAlt then (s.alt, s.broken)
+  else if dir ∧ s.fclosed then (wantAlt, true)
+  else (wantAlt, false)
 
-def verifyBad (dir : Bool) (s : S) : S :=
-  let r := verifyBadCore dir s
+def verifyBad (dir : Bool) (s : S) (wantAlt : Bool := false) : S :=
+  let r := verifyBadCore dir s wantAlt
   { s with alt := r.1, broken := r.2 }
 
 def step (dir : Bool) (s : S) : Op → S × Out
   | .w c => if s.ended ∨ (dir ∧ s.fclosed) then (s, .err) else ({ s with written := s.written ++ [c] }, .ok)
   | .vbad => (verifyBad dir s, .err)
+  | .vbadAlt => (verifyBad dir s true, .err)
   | .vgood => verify dir s false
   | .vgoodAlt => verify dir s true
   | .close => match verify dir s false with
